@@ -90,16 +90,27 @@ theorem bnEval_sound : ∀ (fuel : Nat) (ρ : TEnv) (e : AST) (v : TVal), bnEval
                       · cases h
                     · cases h
                   · split at h
-                    · rename_i hn; cases h; exact BN.mkList hn
-                    · split at h
-                      · rename_i hn
+                    · rename_i hn
+                      split at h
+                      · rename_i a1 a2
                         split at h
-                        · rename_i a
+                        · rename_i x y h1 h2
                           split at h
-                          · rename_i elems ha; cases h; exact BN.lenList hn (ih _ _ _ ha)
                           · cases h
+                          · rename_i hy; cases h; exact BN.remInt hn (ih _ _ _ h1) (ih _ _ _ h2) hy
                         · cases h
                       · cases h
+                    · split at h
+                      · rename_i hn; cases h; exact BN.mkList hn
+                      · split at h
+                        · rename_i hn
+                          split at h
+                          · rename_i a
+                            split at h
+                            · rename_i elems ha; cases h; exact BN.lenList hn (ih _ _ _ ha)
+                            · cases h
+                          · cases h
+                        · cases h
       · rename_i hl
         have hf : tagOf f = none := by rw [← isLit_eq_tagOf]; exact hl
         split at h
